@@ -62,7 +62,26 @@ Theorem C12c_recover_elsewhere_refuted :
 Proof. exact recover_elsewhere_refuted. Qed.
 Print Assumptions C12c_recover_elsewhere_refuted.
 
+(* 5. Every frame whose transmission succeeded reaches the receiver, in order: after any request on the serial
+      backend, what has left the port plus what sits in its output buffer is what was there before plus the frames
+      of the request's successful transmissions. *)
+Theorem C12c_line_delivers_all : forall sk fuel o rq srv0 now tie l,
+  let r := do_request line_backend sk fuel o rq (mkWorld srv0 l now [] tie) in
+  l_sent (wenv (snd r)) = l_sent l ++ tx_ok_frames (wtrace (snd r)).
+Proof. exact line_delivers_all. Qed.
+Print Assumptions C12c_line_delivers_all.
+
+(* 6. With an input flush that also resets the output buffer this fails: a fire_and_forget immediately followed by
+      another request loses its frame (a concrete run, evaluated). *)
+Theorem C12c_flush_both_refuted :
+  exists sk fuel rq1 rq2 srv0 l,
+    let r1 := do_request flush_both_backend sk fuel RFire rq1 (mkWorld srv0 l 0 [] false) in
+    let r2 := do_request flush_both_backend sk fuel RSet rq2 (mkWorld (wsrv (snd r1)) (wenv (snd r1)) (wnow (snd r1)) [] false) in
+    l_sent (wenv (snd r2)) <> l_sent l ++ tx_ok_frames (wtrace (snd r1)) ++ tx_ok_frames (wtrace (snd r2)).
+Proof. exact flush_both_refuted. Qed.
+Print Assumptions C12c_flush_both_refuted.
+
 (* non-vacuity: a line in step exists *)
 Example C12c_line_ok_example :
-  line_ok (mkSLine (mkPort true 115200%Z []) 115200%Z (mkScript [] [] 100)) (mkScript [] [] 100).
+  line_ok (mkSLine (mkPort true 115200%Z []) 115200%Z (mkScript [] [] 100) [] []) (mkScript [] [] 100).
 Proof. repeat split. Qed.
